@@ -19,31 +19,49 @@ def run(ctx, broken):
     gen = open(os.path.join(vlib.COQ, "Gen", "GenOrderings.v")).read()
     rows = re.findall(r'\("src/boxcar.rs", "(\w+)", "(\w+)", "(\w+)", (\d+), \[([^\]]*)\]\)', gen)
     res["evaluations"] = len(rows)
-    constrained = [r for r in rows if (r[0], r[1], r[2]) in {("get_or_alloc", "entries", "compare_exchange"), ("push", "entries", "load"), ("extend", "entries", "load"),
-                                                              ("get", "entries", "load"), ("next", "entries", "load"), ("get", "active", "load"), ("next", "active", "load"),
-                                                              ("push", "active", "store"), ("extend", "active", "store")}]
-    res["distinct_nontrivial"] = len(constrained)
-    # oracle on the SOURCE orderings, independent of the Coq predicate: the conjunction the theorem needs
+    # oracle on the SOURCE orderings, independent of the Coq predicate: the conjunction the theorem needs, stated per
+    # FIELD and operation (not per function name): a row of a function the model does not know (a helper that was
+    # not inlined, a new function) is held to the strictest requirement of its field, never left unconstrained.
+    # The only exemptions are the ones orderings_ok makes: the inflight counter (any ordering), and the loads of
+    # get_unchecked (its contract: the caller already happens-after an observation of the entry).
     def at_least(o, what):
-        rank = {"Relaxed": 0, "Acquire": 1, "Release": 1, "AcqRel": 2, "SeqCst": 3}
         if what == "acq":
             return o in ("Acquire", "AcqRel", "SeqCst")
-        return o in ("Release", "AcqRel", "SeqCst")
+        if what == "rel":
+            return o in ("Release", "AcqRel", "SeqCst")
+        return o in ("AcqRel", "SeqCst")
+
+    def requirement(fn, field, op):
+        """(tuple of per-ordering requirements, text) or None when orderings_ok requires nothing of this site"""
+        if field == "inflight":
+            return None
+        if op in ("compare_exchange", "compare_exchange_weak"):
+            return ("rel", "acq"), "compare_exchange of the bucket pointer must be (>= Release, >= Acquire)"
+        if op == "load":
+            if fn == "get_unchecked" and field in ("entries", "active"):
+                return None
+            if field == "entries":
+                return ("acq",), "bucket-pointer load followed by an access to the bucket must be >= Acquire"
+            if field == "active":
+                return ("acq",), "load of `active` before the non-atomic read of the entry must be >= Acquire"
+            return ("acq",), "load of an atomic the model does not know (`%s`): held to the strictest requirement, >= Acquire" % field
+        if op == "store":
+            if field == "active":
+                return ("rel",), "store of `active` after the non-atomic writes of the entry must be >= Release"
+            return ("rel",), "store to `%s` (bucket pointer / atomic the model does not know): held to the strictest requirement, >= Release" % field
+        # swap / fetch_* on anything but the inflight counter: both directions
+        return ("acqrel",), "read-modify-write of `%s` (not the inflight counter): held to the strictest requirement, >= AcqRel" % field
+
+    constrained = [r for r in rows if requirement(r[0], r[1], r[2])]
+    res["distinct_nontrivial"] = len(constrained)
     for fn, field, op, k, ords in rows:
-        ol = [x.strip() for x in ords.split(";")]
+        ol = [x.strip() for x in ords.split(";") if x.strip()]
+        req = requirement(fn, field, op)
         need = None
-        if op == "compare_exchange":
-            if not (at_least(ol[0], "rel") and at_least(ol[1], "acq")):
-                need = "compare_exchange of the bucket pointer must be (>= Release, >= Acquire)"
-        elif field == "entries" and op == "load" and fn in ("push", "extend", "get", "next"):
-            if not at_least(ol[0], "acq"):
-                need = "bucket-pointer load followed by an access to the bucket must be >= Acquire"
-        elif field == "active" and op == "load" and fn in ("get", "next"):
-            if not at_least(ol[0], "acq"):
-                need = "load of `active` before the non-atomic read of the entry must be >= Acquire"
-        elif field == "active" and op == "store":
-            if not at_least(ol[0], "rel"):
-                need = "store of `active` after the non-atomic writes of the entry must be >= Release"
+        if req:
+            want, text = req
+            if len(ol) != len(want) or not all(at_least(o, w) for o, w in zip(ol, want)):
+                need = text
         if need:
             res["failures"].append({"class": "ordering", "what": "src/boxcar.rs %s(): %s.%s #%s has ordering %s: %s; racing execution: see the matching C09_need_* lemma / C09_pinned_races in coq/Props/C09.v (writer publishes a bucket or entry, reader observes it through this access and touches memory initialised by non-atomic writes it does not happen-after)" % (fn, field, op, k, ords, need), "site": [fn, field, op, k, ords]})
     # program structure: the scheduled histories of C08 (sites in program order) - small batch
